@@ -9,6 +9,7 @@ CONSTANTS
   FnOut = FALSE
   Poller = FALSE
   Aging = FALSE
+  Overruns = TRUE
   Gen = "last"
 CONSTRAINTS Mark NotYetAccepted
 POSTCONDITION Accepted
